@@ -2,9 +2,16 @@
    [callsub] (model [Comp.Compile.spill_one]) preserves the caller's frame: the operands already on the
    stack, the caller's local slots, and the callee's results — for every number of slots, every number
    of arguments, every stack below, every scratch content and every callee (which may rewrite all
-   slots) — exactly when the callee leaves as many results as the CALLER's return type says. *)
-From Coq Require Import List Arith NArith Bool Lia.
-From PV Require Import Base.Bytes AVM.Syntax AVM.Ops Comp.Passes Comp.Compile Comp.SpillSem.
+   slots) — exactly when the callee leaves as many results as the flag [r] (second parameter of
+   [spill_one]) the restore code was built for says.
+   History: up to /repo commit 258948a the compiler took that flag from the CALLING subroutine's
+   return_type (model parameter name [caller_returns]); the fix takes it from the CALLED subroutine
+   (model: [spill] now passes [callee_returns]).  [spill_frame_same_type] is the theorem the fix makes
+   applicable to every call; the [spill_frame_refuted_*] theorems show what the old choice did under
+   mutual recursion between a none and a uint64 subroutine (flag and callee disagree). *)
+From Coq Require Import String.
+From Coq Require Import Arith NArith Bool Lia List.
+From PV Require Import Base.Bytes AVM.Syntax AVM.Ops Src.Expr Comp.Passes Comp.Compile Comp.SpillSem.
 Import ListNotations.
 
 (* ------------------------------------------------------------------------------------------ *)
@@ -390,7 +397,7 @@ Proof.
   assert (Hsr : Forall slot_ok (rev slots)).
   { apply Forall_forall. intros x Hx. apply in_rev in Hx. revert x Hx. apply Forall_forall. exact Hs. }
   destruct r.
-  - (* the caller returns a value *)
+  - (* r = true: one result on top *)
     destruct res as [|v [|? ?]]; try discriminate. cbn [rev app andb].
     destruct (Nat.eqb_spec (length slots) 1) as [E1|E1]; cbn [negb andb].
     + (* one slot: swap *)
@@ -433,7 +440,7 @@ Proof.
            destruct (N.eqb_spec n s1) as [->|Hn]; cbn [orb]; [reflexivity|].
            destruct (mem_N n t); [reflexivity|].
            apply N.eqb_neq in Hn. unfold supd. rewrite Hn. reflexivity.
-  - (* the caller returns nothing *)
+  - (* r = false: no result *)
     destruct res as [|? ?]; try discriminate. cbn [rev app andb].
     exists (restore m (rev slots) m1). split; [|intros n; rewrite restore_spec, mem_N_rev; reflexivity].
     rewrite srun_app, <- map_rev, run_stores by exact Hsr.
@@ -456,7 +463,9 @@ Definition call_stmt (cargs : list arg) : comp := COp (mkI O_callsub cargs).
    - [length slots + numArgs - 1 <= 255], [length slots <= 255]: [stackDistance], [numArgs] and
      [len(slots)] are emitted as uint8 immediates of uncover/dig/cover ([exec_pure] fails above 255;
      the real assembler rejects such TEAL).
-   - the callee leaves exactly as many results as the CALLER's return type says ([r]). *)
+   - the callee leaves exactly as many results as the flag [r] says.  [spill] passes the CALLED
+     subroutine's "returns a value" as [r] (since the fix 258948a in /repo; before, the CALLING
+     subroutine's), so after the fix this hypothesis holds for every call the compiler wraps. *)
 Theorem spill_frame_same_type_mem :
   forall (version : N) (r : bool) (slots : list N) (numArgs : nat) (cargs : list arg)
          (callee : callee_t) (args S : list value) (m : scratch),
@@ -514,14 +523,15 @@ Proof.
 Qed.
 
 (* ------------------------------------------------------------------------------------------ *)
-(* the defect: the restore code is chosen from the CALLER's return type.  When the callee's     *)
+(* the defect (fixed in /repo by 258948a): the restore code was chosen from the CALLER's return  *)
+(* type, i.e. [r] was the caller's flag.  When the callee's                                     *)
 (* result count differs (mutual recursion none <-> uint64) the frame is destroyed.              *)
 (* ------------------------------------------------------------------------------------------ *)
 Definition m0 : scratch := fun n => VI (n + 10).
 Definition callee_one : callee_t := fun _ m => ([VI 99], m).     (* returns one value *)
 Definition callee_none : callee_t := fun _ m => ([], m).         (* returns nothing *)
 
-(* caller : none (r = false), callee returns a value *)
+(* flag r = false (old compiler: caller of type none), callee returns a value *)
 Theorem spill_frame_refuted_callee_returns :
   forall version, version = 4%N \/ version = 6%N ->
   exists stk m'',
@@ -536,7 +546,7 @@ Proof.
   - eexists. eexists. split; [reflexivity|]. cbv. repeat split; intro H; discriminate H.
 Qed.
 
-(* caller : uint64 (r = true), callee returns nothing *)
+(* flag r = true (old compiler: caller of type uint64), callee returns nothing *)
 Theorem spill_frame_refuted_callee_none :
   forall version, version = 4%N \/ version = 6%N ->
   exists stk m'',
@@ -605,3 +615,23 @@ Example ex_swap :
   /\ spill_one 5 true [3]%N 1 (call_stmt [ASub 1%N])
      = [OpI O_load 3; Op0 O_swap; call_stmt [ASub 1%N]; Op0 O_swap; OpI O_store 3].
 Proof. split; vm_compute; reflexivity. Qed.
+
+(* ------------------------------------------------------------------------------------------ *)
+(* [spill] hands [spill_one] the CALLED subroutine's flag (the fix 258948a): mutual recursion   *)
+(* f : none (id 1) <-> g : uint64 (id 2).  The call of g inside f is wrapped for a result, the  *)
+(* call of f inside g is wrapped for none — so [spill_frame_same_type] applies to both.         *)
+(* ------------------------------------------------------------------------------------------ *)
+Definition ex_f : Src.Expr.routine := Src.Expr.mkRoutine 1 "f"%string Src.Expr.TNone [(false, 3%N)] (Src.Expr.ESeq []) None.
+Definition ex_g : Src.Expr.routine := Src.Expr.mkRoutine 2 "g"%string Src.Expr.TUint [(false, 5%N)] (Src.Expr.ESeq []) None.
+Definition ex_prog : Src.Expr.prog := Src.Expr.mkProgram (Src.Expr.ESeq []) [ex_f; ex_g] [].
+
+Example spill_uses_callee_flag :
+  spill 6 ex_prog
+        [mkFR None [call_stmt [ASub 1%N]];
+         mkFR (Some ex_f) [call_stmt [ASub 2%N]];
+         mkFR (Some ex_g) [call_stmt [ASub 1%N]]]
+        [(None, []); (Some 1%N, [3; 4]%N); (Some 2%N, [5]%N)]
+  = COk [mkFR None [call_stmt [ASub 1%N]];
+         mkFR (Some ex_f) (spill_one 6 true [3; 4]%N 1 (call_stmt [ASub 2%N]));
+         mkFR (Some ex_g) (spill_one 6 false [5]%N 1 (call_stmt [ASub 1%N]))].
+Proof. vm_compute. reflexivity. Qed.
